@@ -319,11 +319,41 @@ return before the single rename): promotion to the final path happens only after
 signal.  Every theorem above takes this as hypothesis `hpo`. -/
 theorem C25_promote_after_verdict : Arc.Generated.C25.facts.promoteAfterVerdict = true := by decide
 
+/-- **C25_no_resume_from_full.** With the `>=` boundary in `tryResumeFromPartial`, a local file of
+length ≥ the manifest size is never used as a resume point: the fetch restarts from offset 0 (and
+`WriteReader` truncates the staging file). -/
+theorem C25_no_resume_from_full (f : Facts) (hrb : f.resumeFullPart = false) (size : Nat) (r : Rep)
+    (n : Nat) (hs : statFile f r = some n) (hn : size ≤ n) : resumePrefix f size r = [] := by
+  unfold resumePrefix
+  rw [hs]
+  simp [hrb, hn]
+
+/-- **C25_resume_boundary.** Obligation on the current source (regenerated fact, read off the guard
+of `tryResumeFromPartial`): the boundary is `partial >= entry.SizeBytes`. -/
+theorem C25_resume_boundary : Arc.Generated.C25.facts.resumeFullPart = false := by decide
+
+/-- **C25_order_ok.** Both step-order obligations (`hpo` of every theorem above) hold for the
+current source. -/
+theorem C25_order_ok : Arc.Generated.C25.facts.orderOK = true := by decide
+
+/-- **C25_resume_boundary_witness.** Why the boundary matters (presence check repaired, `Delete`
+leaves `.part`): after one full-length corrupted transfer the 3-byte `.part` is reused as resume
+point, the peer rejects offset 3 = size with bad_offset, the bad-offset cleanup removes only the
+final path — both fault-free retries are burnt and the call gives up.  With `>=` the same history
+ends pulled. -/
+theorem C25_resume_boundary_witness :
+    let hist : List (List Outcome) := [[.corrupt 0], [.ok], [.ok]]
+    let bad := runProc wId ⟨true, false, true, true, true⟩ wContent 3 (PState.start ⟨none, none⟩ {}) hist
+    let good := runProc wId ⟨true, false, true, true, false⟩ wContent 3 (PState.start ⟨none, none⟩ {}) hist
+    bad.st = .failed ∧ bad.rep = ⟨none, some [11, 11, 12]⟩ ∧ bad.cnt.badOffset = 2 ∧
+    good.st = .pulled ∧ good.rep = ⟨some wContent, none⟩ := by
+  decide
+
 /-- **C25_early_promote_witness.** Why the obligation matters: with a `WriteReader` that stops
 copying at the declared size, a full-length transfer with byte 0 altered is renamed onto the final
 path before the checksum verdict (visible at `mid`), and only then removed by the cleanup. -/
 theorem C25_early_promote_witness :
-    let f : Facts := ⟨true, false, true, false⟩
+    let f : Facts := ⟨true, false, true, false, false⟩
     let po := pullOnce wId f wContent false ⟨none, none⟩ (.corrupt 0)
     po.mid.final = some [11, 11, 12] ∧ po.err = .checksum ∧ po.rep = ⟨none, none⟩ := by
   decide
@@ -341,7 +371,7 @@ theorem C25_generated :
 theorem C25_repaired_or_current (f : Facts) :
     f.repaired = true ∨
     (f.statPartFallback = true ∧ f.deleteRemovesPart = false ∧ f.presenceNeedsFinal = false) := by
-  obtain ⟨a, b, c, d⟩ := f
+  obtain ⟨a, b, c, d, e⟩ := f
   cases a <;> cases b <;> cases c <;> simp [Facts.repaired, Facts.presenceSound]
 
 /-! ## non-vacuity -/
@@ -349,7 +379,7 @@ theorem C25_repaired_or_current (f : Facts) :
 /-- hypotheses of `C25_counts`/`C25_converges` are satisfiable by a non-trivial state and history
 (repaired facts, a stale 2-byte staging file, a truncation then a corruption then recovery) -/
 example :
-    let f : Facts := ⟨true, true, false, true⟩
+    let f : Facts := ⟨true, true, false, true, false⟩
     let r0 : Rep := ⟨none, some [10, 11]⟩
     f.repaired = true ∧ GoodFinal wId wContent r0 ∧ StartOK f wContent r0 ∧
     (runProc wId f wContent 3 (PState.start r0 {}) [[.trunc 1], [.corrupt 2], [.ok]]).st = .pulled ∧
